@@ -77,9 +77,19 @@ class Gen:
         rows = self.rnd.randint(2, 3)
         cols = self.rnd.randint(2, 3)
         out = "{|\n"
-        if self.rnd.random() < 0.3:
+        k = self.rnd.random()
+        if k < 0.3:
             # caption: text, an inline formula, more text (all of it belongs to the caption)
             out += "|+ " + self.word(anc + ["Table"]) + " <math>x^2</math> " + self.word(anc + ["Table"]) + "\n"
+        elif k < 0.4:
+            # caption with a link and no attribute part: text, link, text
+            t = f"Target{self.n}"
+            out += "|+ " + self.word(anc + ["Table"]) + f" [[{t}|" + self.word(anc + ["Table", f"ArticleLink:{t}"]) + "]] " + self.word(anc + ["Table"]) + "\n"
+        elif k < 0.5:
+            # caption with an attribute part, then styled text and a link
+            t = f"Target{self.n}"
+            out += '|+ style="color:red" | ' + self.word(anc + ["Table"]) + " ''" + self.word(anc + ["Table", "Emphasized"]) + f"'' [[{t}|" + \
+                self.word(anc + ["Table", f"ArticleLink:{t}"]) + "]]\n"
         implicit_first_row = self.rnd.random() < 0.3      # the first row needs no leading |-
         for r in range(rows):
             if r or not implicit_first_row:
@@ -224,4 +234,16 @@ def tree_words(tree):
         for c in kids:
             walk(c, a)
     walk(tree, [])
+    return out
+
+
+def markup_residue(tree):
+    """pieces of wiki markup that ended up as visible text: every Text leaf of a document of this grammar consists of
+    generated words only (the grammar writes no punctuation as text)"""
+    out = []
+    for n in [tree] + list(tree.allchildren()):
+        if n.__class__.__name__ == "Text":
+            for w in (n.caption or "").split():
+                if not (w.startswith("w") and w[1:].isdigit()):
+                    out.append(w)
     return out
